@@ -1,6 +1,7 @@
 package main
 
 import (
+	"runtime/pprof"
 	"encoding/json"
 	"flag"
 	"fmt"
@@ -34,7 +35,13 @@ func main() {
 	tags := flag.String("tags", "verif", "build tags")
 	slog := flag.String("solverlog", "", "prefix for solver logs")
 	gmp := flag.Int("gomaxprocs", 1, "value returned by runtime.GOMAXPROCS")
+	cpuprof := flag.String("cpuprofile", "", "write cpu profile")
 	flag.Parse()
+	if *cpuprof != "" {
+		f, _ := os.Create(*cpuprof)
+		pprof.StartCPUProfile(f)
+		defer pprof.StopCPUProfile()
+	}
 
 	o := &Output{Package: *pattern}
 	env, err := LoadEnv(*dir, *pattern, *overlay, *tags)
